@@ -22,6 +22,7 @@ import CelerVerif.Lemmas.CsgFlag
 import CelerVerif.Lemmas.CsgBitStack
 import CelerVerif.Lemmas.CsgExamples
 import CelerVerif.Lemmas.CsgDeMorganD
+import CelerVerif.Lemmas.CsgReach
 
 namespace CelerVerif.Csg
 open CelerVerif.Generated.Csg
@@ -256,7 +257,67 @@ theorem flagSimple_sound_denote {t : Tree} (inv : TreeInv t) (hna : NoNegAlias t
   rcases flagSimple_sound inv.struct hna hn h with ⟨c, L, hc⟩
   exact ⟨c, L, fun σ => hc σ _ (denote_models inv.sorted σ)⟩
 
+/-! ### every tree reachable through the production API -/
+
+/-- ★ END-TO-END, no ordering hypothesis.  `Reach t C V M` (Lemmas/CsgReach.lean) is the closure
+    of the empty tree under what production code calls — `CsgTree::insert` (any node whose
+    children exist), `insert_volume`, `replace_and_simplify` — plus the public whole-tree
+    `simplify(tree, start ≥ 2)` and `transform_negated_joins` (on a sorted tree satisfying its
+    documented precondition); raw `exchange` and single-node `simplify` are excluded.  `C σ` =
+    "σ is consistent with every constant replaced so far", `V σ i` = intended value of node `i`
+    (value of the node when it was inserted), `M σ` = values of the volumes when they were
+    declared.  For EVERY reachable tree and every admissible `σ`: `V σ` is a model of the tree,
+    the dedup map is sound, the structural invariant holds, and every volume still has exactly
+    the value it was declared with. -/
+theorem reachable_preserves {t : Tree} {C : Sense → Prop} {V : Sense → Nat → Bool}
+    {M : Sense → List Bool} (h : Reach t C V M) (σ : Sense) (hc : C σ) :
+    Good t σ (V σ) ∧ (∀ x ∈ t.volumes, x < t.size) ∧ t.volumes.map (V σ) = M σ :=
+  ⟨(reach_good h σ hc).good, (reach_good h σ hc).volRange, (reach_good h σ hc).volVals⟩
+
+/-- ★ END-TO-END for the runtime encoding: on every reachable tree, the postfix logic that
+    `PostfixLogicBuilder` emits for volume `k` (with or without the surface mapping), evaluated
+    by the reference evaluator — and by the real 32-bit `LogicStack` evaluator when
+    `calc_max_depth ≤ 32` — yields the value volume `k` was declared with, for every sense
+    assignment consistent with the replaced constants. -/
+theorem reachable_postfix_correct {t : Tree} {C : Sense → Prop} {V : Sense → Nat → Bool}
+    {M : Sense → List Bool} (h : Reach t C V M) (σ : Sense) (hc : C σ)
+    (hsurf : ∀ i k, i < t.size → t.get i = .surface k → k < lbegin)
+    (mapping : Option (List Nat)) (hmap : MappingOk t mapping) {k : Nat}
+    (hk : k < t.volumes.length) {faces lgc : List Nat}
+    (hp : postfixOf t mapping (t.volumes[k]) = some (faces, lgc)) :
+    evalRef lgc (fun f => mapVals σ mapping (faces.getD f 0)) = (M σ)[k]? ∧
+    (calcMaxDepth lgc ≤ 32 →
+      some (evalBits lgc (fun f => mapVals σ mapping (faces.getD f 0))) = (M σ)[k]?) := by
+  have ok := reach_good h σ hc
+  have hin : t.volumes[k] < t.size := ok.volRange _ (List.getElem_mem hk)
+  have hpc := postfix_correct_models ok.good.struct ok.good.models hsurf mapping hmap hin hp
+  have hm : (M σ)[k]? = some (V σ (t.volumes[k])) := by
+    rw [← ok.volVals, List.getElem?_map, List.getElem?_eq_getElem hk]; rfl
+  rw [hm]
+  exact ⟨hpc.1, fun hd => by rw [hpc.2 hd]⟩
+
 /-! ### counter-examples (model and real code agree; replayed by tools/checks/c10.py) -/
+
+set_option maxRecDepth 100000 in
+/-- the topological order ("children < own id", documented in CsgTree.hh) is NOT an invariant of
+    trees reachable through the production API: fourteen `insert`s followed by two
+    `replace_and_simplify` calls (both succeed) leave node 10 an alias of the HIGHER node 11.
+    Mechanism: the first call replaces node 8 by `True` in its final loop (key `S0∨S1 ↦ 8` stays
+    current) and node 12 becomes an alias of 11; in the second call node 9 dedups to the
+    constant-aliased node 8, node 10 then simplifies (one alias level) to the stale key
+    `S2∧S3∧8 ↦ 12` and the swap-with-higher-duplicate branch copies `Aliased{11}` into node 10.
+    Node values are preserved (`reachable_preserves`).  Consequently the hypothesis `Sorted t'`
+    of `simplifyAll_preserves_partial` / `replaceAndSimplify_denote_partial` cannot be removed
+    for reachable trees.  Replay: corpus/C10/findings/replace-order.ops. -/
+theorem replace_twice_breaks_order :
+    Sorted replaceOrderWitness ∧ replaceOrderStep1.isOk = true ∧ replaceOrderStep2.isOk = true ∧
+    replaceOrderStep2.tree.get 10 = .aliased 11 ∧ ¬ Sorted replaceOrderStep2.tree := by
+  have h : replaceOrderStep1.isOk = true ∧ replaceOrderStep2.isOk = true ∧
+      replaceOrderStep2.tree.get 10 = .aliased 11 ∧ 10 < replaceOrderStep2.tree.size := by decide
+  refine ⟨by decide, h.1, h.2.1, h.2.2.1, fun hs => ?_⟩
+  have := hs 10 h.2.2.2 11 (by rw [h.2.2.1]; simp [Node.children])
+  omega
+
 
 /-- `SwapSafe` cannot be dropped from `simplifyNode_preserves`: on a tree reached from the empty
     tree through public `CsgTree` calls only (`orderWitness`), `simplify(7)` takes the
@@ -454,6 +515,47 @@ example : (match replaceAndSimplify ex1 4 true with
 
 example : (match replaceAndSimplify ex1 4 true with | .ok _ _ => true | _ => false) = true := by
   decide
+
+-- reachable trees: S0, S1, S0 ∧ S1 declared as a volume, then S0 replaced by `true`; the
+-- all-true assignment is admissible and the volume's declared value there is `true`
+example : ∃ t' C V M, Reach t' C V M ∧ C (fun _ => true) ∧ M (fun _ => true) = [true] ∧
+    (Good t' (fun _ => true) (V (fun _ => true)) ∧ t'.volumes.map (V (fun _ => true)) = [true]) := by
+  have r1 := Reach.insert (.surface 0) Reach.empty (by simp [Node.children]) (by decide)
+  have r2 := Reach.insert (.surface 1) r1 (by simp [Node.children]) (by decide)
+  have r3 := Reach.insert (.joined .and [2, 3]) r2 (by decide) (by decide)
+  have r4 := Reach.volume 4 r3 (by decide)
+  cases hr : replaceAndSimplify ((insert (insert (insert Tree.empty (.surface 0)).1
+      (.surface 1)).1 (.joined .and [2, 3])).1.insertVolume 4) 2 true with
+  | ok t' unk =>
+    have r5 := Reach.replace 2 true unk r4 (by decide) hr
+    have hc : (fun σ : Sense => (fun _ => True) σ ∧
+        (fun σ i => if i = (insert (insert Tree.empty (.surface 0)).1 (.surface 1)).1.size
+          then evalNode σ ((fun σ i => if i = (insert Tree.empty (.surface 0)).1.size then
+            evalNode σ ((fun σ i => if i = Tree.empty.size then
+              evalNode σ ((fun σ => denote Tree.empty σ) σ) (.surface 0)
+              else (fun σ => denote Tree.empty σ) σ i) σ) (.surface 1)
+            else (fun σ i => if i = Tree.empty.size then
+              evalNode σ ((fun σ => denote Tree.empty σ) σ) (.surface 0)
+              else (fun σ => denote Tree.empty σ) σ i) σ i) σ) (.joined .and [2, 3])
+          else (fun σ i => if i = (insert Tree.empty (.surface 0)).1.size then
+            evalNode σ ((fun σ i => if i = Tree.empty.size then
+              evalNode σ ((fun σ => denote Tree.empty σ) σ) (.surface 0)
+              else (fun σ => denote Tree.empty σ) σ i) σ) (.surface 1)
+            else (fun σ i => if i = Tree.empty.size then
+              evalNode σ ((fun σ => denote Tree.empty σ) σ) (.surface 0)
+              else (fun σ => denote Tree.empty σ) σ i) σ i) σ i) σ 2 = true) (fun _ => true) :=
+      ⟨trivial, by decide⟩
+    have hp := reachable_preserves r5 (fun _ => true) hc
+    refine ⟨t', _, _, _, r5, hc, by decide, hp.1, ?_⟩
+    rw [hp.2.2]; decide
+  | contradiction t' =>
+    have : (replaceAndSimplify ((insert (insert (insert Tree.empty (.surface 0)).1
+      (.surface 1)).1 (.joined .and [2, 3])).1.insertVolume 4) 2 true).isOk = true := by decide
+    rw [hr] at this; cases this
+  | outOfFuel t' =>
+    have : (replaceAndSimplify ((insert (insert (insert Tree.empty (.surface 0)).1
+      (.surface 1)).1 (.joined .and [2, 3])).1.insertVolume 4) 2 true).isOk = true := by decide
+    rw [hr] at this; cases this
 
 -- (e): `ex3` = `ex1` + volume ¬(S0 ∧ S1); the transformation returns `¬S0 ∨ ¬S1`
 example : ∃ t', transformNegatedJoins ex3 = .ok t' ∧ t'.volumes.length = 1 ∧
